@@ -476,6 +476,26 @@ def enum_small_param(tier):
             yield dict(dev="phys", calls=[SMALL_PARAM[i] for i in combo])
 
 
+# ---- third exhaustive space: EOM mode x variables x measurement (physical device)
+EOM_PREFIXES = [
+    [dict(kind="declare", a=0, b=0), dict(kind="declare_var", a=0, b=0)],
+    [dict(kind="declare", a=0, b=0), dict(kind="enable_eom", a=0, b=0), dict(kind="declare_var", a=0, b=0)],
+]
+SMALL_EOM = [
+    dict(kind="use_var", a=0, b=0), dict(kind="enable_eom", a=0, b=0), dict(kind="add_eom", a=0, b=0),
+    dict(kind="disable_eom", a=0, b=0), dict(kind="modify_eom", a=0, b=0), dict(kind="measure", a=0, b=0),
+    dict(kind="delay", a=0, b=0),
+]
+
+
+def enum_small_eom(tier):
+    depth = 5 if tier == "thorough" else 4
+    for pre in EOM_PREFIXES:
+        for n in range(1, depth + 1):
+            for combo in itertools.product(range(len(SMALL_EOM)), repeat=n):
+                yield dict(dev="phys", calls=pre + [SMALL_EOM[i] for i in combo])
+
+
 CLAUSES = [
     Clause("typestate", check, gen=lambda t: call_seqs(t),
            budget={"quick": (16, 1500), "thorough": (16, 40000)},
@@ -485,5 +505,9 @@ CLAUSES = [
            doc="all sequences of <=4 (quick) / <=5 (thorough) calls from a 12-call alphabet"),
     Clause("typestate_param_exhaustive", check, enum=enum_small_param,
            budget={"quick": (16, 0), "thorough": (16, 0)}, exhaustive=True,
-           doc="all sequences of <=5 (quick) / <=6 (thorough) calls from a 9-call alphabet with variables and DMMs"),
+           doc="all sequences of <=5 (quick) / <=6 (thorough) calls from a 10-call alphabet with variables and DMMs"),
+    Clause("typestate_eom_param_exhaustive", check, enum=enum_small_eom,
+           budget={"quick": (8, 0), "thorough": (16, 0)}, exhaustive=True,
+           doc="an EOM channel and a variable declared, then all sequences of <=4 (quick) / <=5 (thorough) calls "
+               "from {use variable, enable/modify/disable EOM, EOM pulse, measure, delay}"),
 ]
